@@ -163,5 +163,10 @@ av0 = ma.average(av, axis=0, weights=[0, 0])
 av1 = ma.average(av, axis=0, weights=[1, 3])
 check("A29 numpy.ma.average(stack, axis=0, weights=w): weighted layer mean over the cells present (weights renormalised), masked where the weight sum is 0",
       av0.mask.tolist() == [True, True] and av1.mask.tolist() == [False, False] and np.allclose(av1.data, [2.5, 4.0]))
+ug = np.array([[3, 1, 3], [2, 1, 2]])
+uv, ui = np.unique(ug, return_inverse=True)
+tbl = np.array([10.0, 20.0, 30.0])
+check("A30 numpy.unique(x, return_inverse=True): table[inverse].reshape(x.shape) looks every cell's value up in a per-value table, cell by cell",
+      np.array_equal(tbl[ui].reshape(ug.shape), np.array([[30.0, 10.0, 30.0], [20.0, 10.0, 20.0]])) and np.array_equal(uv[ui].reshape(ug.shape), ug))
 print("%d axiom check(s) failed" % len(FAIL))
 sys.exit(1 if FAIL else 0)
